@@ -168,7 +168,7 @@ PROPS['C17'] = dict(
     level_note='Exact reals with algebraic nodes; quadrature size, orders, weight degree and windows enumerated to the bound; boost tables/rounding not covered; trusted: g++, libz3, sym.h/harness.h, gauss stub, oracle in C17_quadrature.cpp.')
 
 PROPS['C11'] = dict(
-    engine='A', technique='symbolic execution of the real validating entry points with IEEE-comparison scalars (z3 Float64: NaN/+-0/+-inf are solver variables) and real scalars; accept/refuse outcome proved equivalent to the documented predicate on every path',
+    engine='A+B', irsym=[dict(module='c13', checks=[4, 6], params=dict(quick=dict(nmax_data=3), thorough=dict(nmax_data=3)))], technique='symbolic execution of the real validating entry points with IEEE-comparison scalars (z3 Float64: NaN/+-0/+-inf are solver variables) and real scalars; accept/refuse outcome proved equivalent to the documented predicate on every path',
     harnesses=[dict(name='C11_validation', src='C11_validation.cpp', chunk=1,
                     defs=dict(quick=['-DMAXK=5', '-DMAXN=4'], thorough=['-DMAXK=6', '-DMAXN=5']),
                     functions=['Grid::Grid (vector, iterator, initializer_list, shared_ptr)', 'Grid::checkValidity', 'Grid::isSteadilyIncreasing', 'Support::Support', 'Support::checkValidity',
@@ -183,7 +183,7 @@ PROPS['C11'] = dict(
     level_note='Sequence lengths, index values and counts enumerated to the bound, element values symbolic; trusted: g++, libz3 (FPA, NRA), sym.h/symf64.h/harness.h, oracle in C11_validation.cpp.')
 
 PROPS['C14'] = dict(
-    engine='A', technique='symbolic-scalar execution of operation histories on the real classes; operands/earlier results compared with snapshots and with freshly constructed objects (history independence) under solver-enumerated paths',
+    engine='A+B', irsym=[dict(module='c13', checks=[2, 3, 5, 6], params=dict(quick=dict(nmax_data=3), thorough=dict(nmax_data=3)))], technique='symbolic-scalar execution of operation histories on the real classes; operands/earlier results compared with snapshots and with freshly constructed objects (history independence) under solver-enumerated paths',
     harnesses=[dict(name='C14_value', src='C14_value.cpp',
                     defs=dict(quick=['-DMAXN=3'], thorough=['-DMAXN=4', '-DMORE_ORDERS']),
                     functions=['Spline copy/move construction and assignment', 'Spline::operator()', 'Spline::isZero', 'Spline::front/back', 'Spline::operator+,-,*,/,unary -', 'Spline::operator+=,-=,*=,/=',
@@ -198,7 +198,7 @@ PROPS['C14'] = dict(
     level_note='Exact reals; orders, windows, grid sizes and the operation sequences are fixed/enumerated to the bound, arguments symbolic; trusted: g++, libz3, sym.h/harness.h, oracle in C14_value.cpp.')
 
 PROPS['C10'] = dict(
-    engine='A', technique='symbolic-scalar execution of operation sequences over a pool of real objects from every valid shape; class invariants checked on every live object after every step (inductive step + bounded sequences)',
+    engine='A+B', irsym=[dict(module='c13', checks=[4, 6], params=dict(quick=dict(nmax_data=3), thorough=dict(nmax_data=3)))], technique='symbolic-scalar execution of operation sequences over a pool of real objects from every valid shape; class invariants checked on every live object after every step (inductive step + bounded sequences)',
     harnesses=[dict(name='C10_invariants', src='C10_invariants.cpp',
                     defs=dict(quick=['-DMAXN=3', '-DSEQLEN=2'], thorough=['-DMAXN=4', '-DSEQLEN=2']),
                     functions=['Spline constructors', 'Spline copy/move construction and assignment (incl. self-assignment, self-move, std::swap)', 'Spline::operator=(lower order)', 'Spline::setData',
@@ -237,9 +237,12 @@ PROPS['C19'] = dict(
     level_note='Compile-time part is exact for the instantiations listed; run-time part is bounded like the underlying properties; trusted: g++, libz3, sym.h (strict build).')
 
 _SAN = dict(always_sanitize=True)
-_MEMKINDS = ['stl-assert', 'asan', 'signal', 'divzero']
+_MEMKINDS = ['stl-assert', 'asan', 'signal', 'divzero', 'memory', 'spec']
 PROPS['C09'] = dict(
-    engine='A', technique='symbolic-scalar execution of the real templates under checked STL + AddressSanitizer + UBSan on every solver-enumerated path; reachability of a zero divisor decided by the solver at every scalar division',
+    engine='A+B', irsym=[dict(module='c13', checks=[0, 1, 4, 6], params=dict(quick=dict(nmax_data=3), thorough=dict(nmax_data=4))),
+                        dict(module='c18', tiers=['thorough'], params=dict(thorough=dict(nmax=3)), select=dict(thorough=['chk_eval', 'chk_eval1', 'chk_add', 'chk_mul', 'chk_splop', 'chk_bilin', 'chk_linform', 'chk_applyX1', 'chk_scopy']))],
+    b_timeout_s=dict(quick=900, thorough=3000),
+    technique='(A) symbolic-scalar execution of the real templates under checked STL + AddressSanitizer + UBSan on every solver-enumerated path; reachability of a zero divisor decided by the solver at every scalar division; (B) symbolic execution of the compiled IR with 64-bit symbolic indices/windows where every load/store is resolved by the solver against the live objects',
     only_kinds=_MEMKINDS,
     harnesses=[
         dict(_SAN, name='C09_eval', src='C02_eval.cpp', defs=dict(quick=['-DMAXN=4', '-DMAXO=2', '-DHISTN=3'], thorough=['-DMAXN=5', '-DMAXO=3', '-DHISTN=3']), functions=['Spline::operator()', 'Spline::findInterval', 'Support iterators/accessors']),
